@@ -54,6 +54,7 @@ func (e *Engine) record(ev Event) {
 	if e.pure == 0 {
 		ev.Seq = len(e.events)
 		ev.InLoop = e.inLoop > 0
+		ev.Loops = append([]int(nil), e.loopStack...)
 		if e.curState != nil && e.fc != nil && len(e.fc.EffectCl) > 0 {
 			ev.St = e.curState.clone() // the heap at the time of the call: effect conditions look through pointers in it
 		}
@@ -75,7 +76,75 @@ func (e *Engine) doCommon(f *frame, st *State, cc *ssa.CallCommon, reach string,
 			fnv = e.get(f, st, cc.Value)
 		}
 	}
+	if f.top && e.fc != nil && len(e.fc.Guards) > 0 && e.pure == 0 {
+		e.lockAcquired(f, st, cc, reach, pos)
+	}
 	return e.doCall(f, st, cc, args, fnv, reach, pos, site)
+}
+
+// lockAcquired implements `guards p.mu p.f ...`: when the function under contract acquires p.mu, whatever it knew about
+// the guarded fields is forgotten (another goroutine may have written them while the lock was not held). What the
+// function reads from them before the lock is therefore unrelated to what it sees after it.
+func (e *Engine) lockAcquired(f *frame, st *State, cc *ssa.CallCommon, reach string, pos token.Pos) {
+	callee, ok := cc.Value.(*ssa.Function)
+	if !ok || callee.Pkg == nil || callee.Pkg.Pkg.Path() != "sync" || (callee.Name() != "Lock" && callee.Name() != "RLock") || len(cc.Args) != 1 {
+		return
+	}
+	fa, ok := cc.Args[0].(*ssa.FieldAddr)
+	if !ok {
+		return
+	}
+	pt, ok := fa.X.Type().Underlying().(*types.Pointer)
+	if !ok {
+		return
+	}
+	stT, ok := pt.Elem().Underlying().(*types.Struct)
+	if !ok {
+		return
+	}
+	lockField := stT.Field(fa.Field).Name()
+	owner := ""
+	switch x := fa.X.(type) {
+	case *ssa.Parameter:
+		owner = x.Name()
+	case *ssa.UnOp:
+		if al, ok := x.X.(*ssa.Alloc); ok {
+			owner = al.Comment
+		}
+	case *ssa.FreeVar:
+		owner = x.Name()
+	}
+	for _, g := range e.fc.Guards {
+		if g[0] != owner+"."+lockField {
+			continue
+		}
+		pv, ok := e.get(f, st, fa.X).(PtrV)
+		if !ok {
+			panic(unsupported{"guards: the owner of " + g[0] + " is not a tracked object"})
+		}
+		pv = e.materialise(st, pv, reach, pos)
+		for _, gf := range g[1:] {
+			e.havocFieldOf(st, pv, strings.TrimPrefix(gf, owner+"."), "guarded_"+lockField)
+		}
+	}
+}
+
+// havocFieldOf forgets one field of the object behind pv.
+func (e *Engine) havocFieldOf(st *State, pv PtrV, field string, tag string) {
+	sv, ok := st.cells[pv.Cell].(StructV)
+	if !ok {
+		return
+	}
+	for k := 0; k < sv.Typ.NumFields(); k++ {
+		if sv.Typ.Field(k).Name() == field {
+			old := e.field(sv, k)
+			nv := e.symbolic(st, sv.Typ.Field(k).Type(), tag+"_"+field)
+			if osl, ok := old.(SliceV); ok && osl.Arr != nil {
+				e.havocArr(st, osl.Arr)
+			}
+			st.cells[pv.Cell] = e.setPath(st.cells[pv.Cell], []int{k}, nv)
+		}
+	}
 }
 
 // calleeKeepsMemory reports whether a call is known not to write through its pointer arguments.
@@ -392,6 +461,15 @@ func (e *Engine) callFunc(f *frame, st *State, callee *ssa.Function, bind []Val,
 	if e.pure == 0 {
 		e.havocked[callee.String()] = true
 		keeps := memorySafePkgs[pkgPath] || strings.HasPrefix(pkgPath, "go.opentelemetry.io/") || strings.HasPrefix(pkgPath, "log/")
+		if pkgPath == "sync" && callee.Signature.Recv() != nil {
+			switch name {
+			case "Lock", "Unlock", "RLock", "RUnlock":
+				// a lock operation writes the lock word only; what other goroutines may do to the fields the lock
+				// protects is what `guards` declares (fields not listed there are assumed stable across Lock())
+				keeps = true
+				e.trustedUsed["sync lock operations write only the lock; fields not listed in a `guards` directive are assumed not to be written concurrently"] = true
+			}
+		}
 		if !keeps {
 			for _, a := range args {
 				e.havocPointee(st, a, name)
